@@ -28,6 +28,58 @@ META = {
 }
 
 
+def _runner_output(ck, b):
+    """every payload Runner::run hands on is uncompressed, as the stage declares: it is the re-encoded tile (VectorTile::to_blob) or
+    the input after decompress(.., self.tile_compression) — never the input as it arrived."""
+    blk = ir.fn_block(b)
+    top = ir.stmts_of(blk)
+    params = {x["hid"] for p_ in b["params"] for x in ir.pat_binds(p_)}
+    lets = comp.lets_of(b)
+
+    def is_decompress(e):
+        return e is not None and ir.contains(e, lambda y: y.get("k") == "call" and (y.get("q") or "").endswith("compression::decompress") and
+                                              ir.place_str(y["a"][1]).endswith("self.tile_compression"))
+
+    def top_index(n):
+        for i, st in enumerate(top):
+            if st is n or ir.contains(st, lambda y: y is n):
+                return i
+        return None
+    payloads = []
+    for n in ir.walk_nodes(blk):
+        if n.get("k") == "call" and (n.get("q") or "").endswith("Option::Some::{Ctor#0}") and n.get("a") and "Blob" in (n.get("t") or ""):
+            payloads.append(n)
+    bad = []
+    for n in payloads:
+        e = ir.strip(n["a"][0])
+        seen = 0
+        while e is not None and e.get("k") in ("try", "mcall") and seen < 6 and not (e.get("k") == "mcall" and (e.get("q") or "").endswith("VectorTile::to_blob")):
+            e = ir.strip(e["e"] if e.get("k") == "try" else e["recv"])
+            seen += 1
+        if e is None:
+            bad.append((ir.loc(n), "?"))
+            continue
+        if e.get("k") == "mcall" and (e.get("q") or "").endswith("VectorTile::to_blob"):
+            continue
+        if is_decompress(e):
+            continue
+        h = ir.local_hid(e)
+        if h is not None and h not in params and is_decompress(lets.get(h)):
+            continue
+        if h is not None and h in params:
+            # a parameter: fine only behind an unconditional `param = decompress(param, self.tile_compression)` at the top level
+            at = top_index(n)
+            re = [i for i, st in enumerate(top) if (st["e"] if st.get("k") == "semi" else st).get("k") == "assign" and
+                  ir.local_hid((st["e"] if st.get("k") == "semi" else st)["l"]) == h and is_decompress((st["e"] if st.get("k") == "semi" else st)["r"])]
+            if re and at is not None and min(re) < at:
+                continue
+            bad.append((ir.loc(n), "the input blob as it arrived (`%s`)" % ir.place_str(e)))
+            continue
+        bad.append((ir.loc(n), ir.place_str(e) or e.get("k")))
+    ck.check(bool(payloads) and not bad, "E-COMP", b["q"] + "|output", "every payload the runner returns is the re-encoded tile or the decompressed input (%d return payload(s))" % len(payloads),
+             "the runner can hand on %s while the stage declares Uncompressed: tiles from a compressed source leave the stage still compressed" % (bad[:2],), ir.loc(b))
+
+
 def rules(ck, P):
     mvt.table_fidelity(ck, P)
     mvt.pbf_rules(ck, P)
@@ -80,6 +132,7 @@ def rules(ck, P):
         dc = comp.calls_to(b, "compression::decompress")
         okc = len(dc) == 1 and ir.place_str(dc[0]["a"][1]).endswith("self.tile_compression")
         ck.check(okc, "E-COMP", b["q"] + "|decode", "the tile is decoded with the runner's recorded source compression", "runner does not decompress with the recorded source compression", ir.loc(b))
+        _runner_output(ck, b)
     bld = [b for b in P.bodies if b["q"].endswith("vectortiles_update_properties::Operation::build")]
     if ck.anchor("E-COMP", "Operation::build", bld, 1):
         b = bld[0]
